@@ -1420,6 +1420,8 @@ class Evaluator:
                     t = fuse_comp(("comp", "gen", uid, elt, ((b, args[1], conds),)))
                     self.comps[uid] = (node, t)
                     return t
+        if f[0] == "attr" and f[2] == "rsplit" and len(args) <= 1 and not kwargs:
+            f = ("attr", f[1], "split")  # without maxsplit the direction does not matter
         rec = self._record_construct(f, args, kwargs)
         if rec is not None:
             return rec
